@@ -180,7 +180,13 @@ func reflectValue(rv reflect.Value, val any, opt *Options) (v any) {
 	case reflect.Ptr:
 		elem := rv.Elem()
 		if elem.IsValid() && elem.CanInterface() {
-			v = reflectValue(elem, elem.Interface(), opt)
+			switch elem.Kind() {
+			case reflect.Struct, reflect.Ptr, reflect.Map, reflect.Slice, reflect.Array, reflect.Interface:
+				v = reflectValue(elem, elem.Interface(), opt)
+			default:
+				// Scalars behind a pointer are converted like any other scalar.
+				v = decompose(elem.Interface(), opt)
+			}
 		} else {
 			v = nil
 		}
